@@ -45,6 +45,14 @@ Theorem C12_compose : forall x y a b, (2 <= length x)%nat -> length x = length y
 Proof. exact repeat_compose. Qed.
 Print Assumptions C12_compose.
 
+(** ======== Weaver level (class Weaver in weaver.py; model coq/Model/Weaver.v) ======== *)
+From TW Require Import Model.WeaverSpec Model.Interval Proofs.WeaverLevelProofs.
+Theorem C12_weaver_repeat : forall s r s', (0 <= r)%Z -> step s (ORepeat r) = (s', Ok tt) ->
+  (wx s', wy s') = repeat_series (wx s) (wy s) (Z.to_nat r) /\
+  (wrx s', wry s') = repeat_series (wrx s) (wry s) (Z.to_nat r) /\ wox s' = wox s /\ woy s' = woy s.
+Proof. exact weaver_repeat. Qed.
+Print Assumptions C12_weaver_repeat.
+
 Example C12_example :
   let r := repeat_series [qz 0; qz 1; qz 3] [qz 5; qz 6; qz 7] 2 in
   list_eqb Qc_eqb (fst r) [qz 0; qz 1; qz 3; qz 5; qz 6; qz 8] && list_eqb Qc_eqb (snd r) [qz 5; qz 6; qz 7; qz 5; qz 6; qz 7] = true.
